@@ -19,6 +19,14 @@ def real_const(x):
     return z3.RealVal(str(Fraction(repr(float(x)))))
 
 
+def _forall_pat(vs, body, patterns):
+    """ForAll with explicit patterns, falling back to inferred patterns when z3 rejects them (e.g. ite in a pattern)"""
+    try:
+        return z3.ForAll(vs, body, patterns=patterns)
+    except z3.Z3Exception:
+        return z3.ForAll(vs, body)
+
+
 class ExprMixin:
     # ------------------------------------------------------------------ entry
     def ev(self, node, st):
@@ -93,6 +101,11 @@ class ExprMixin:
             if fn is not None:
                 return Val(T_METHOD, None, py=(base, attr))
             raise Unsupported("attribute %s.%s unknown" % (base.ty.cls, attr), node)
+        if k == "Enum" and attr == "name":
+            f = self.uf("enum_name_%s" % base.ty.name, z3.IntSort(), self.S.Str)
+            return Val(TStr, f(base.z), py=("enum_name", base))
+        if k == "Enum" and attr == "value":
+            return Val(TInt, base.z)
         if k in ("List", "EmptyList", "Set", "Dict", "Str", "Date", "Delta", "Opt", "Json"):
             return Val(T_METHOD, None, py=(base, attr))
         raise Unsupported("attribute %s on %r" % (attr, base.ty), node)
@@ -165,7 +178,7 @@ class ExprMixin:
             if "nl_div_axioms" not in self.ghost:
                 self.ghost["nl_div_axioms"] = True
                 av = z3.Real("a!d")
-                self.assumptions.append(z3.ForAll([av], f(av, 1) == av, patterns=[f(av, 1)]))
+                self.assumptions.append(_forall_pat([av], f(av, 1) == av, [f(av, 1)]))
                 self.trusted.add("x / y for symbolic y is uninterpreted except x / 1 == x")
             return Val(TReal, f(xr.z, yr.z))
         if isinstance(op, ast.FloorDiv) and t == TInt:
@@ -189,8 +202,8 @@ class ExprMixin:
         if ("nl_mul_axioms_%s" % x.sort()) not in self.ghost:
             self.ghost["nl_mul_axioms_%s" % x.sort()] = True
             a, b = z3.Consts("a!m b!m", x.sort())
-            self.assumptions.append(z3.ForAll([a, b], f(a, b) == f(b, a), patterns=[f(a, b)]))
-            self.assumptions.append(z3.ForAll([a], z3.And(f(a, 0) == 0, f(a, 1) == a), patterns=[f(a, 0), f(a, 1)]))
+            self.assumptions.append(_forall_pat([a, b], f(a, b) == f(b, a), [f(a, b)]))
+            self.assumptions.append(_forall_pat([a], z3.And(f(a, 0) == 0, f(a, 1) == a), [f(a, 0), f(a, 1)]))
             self.trusted.add("products of two symbolic numbers are an uninterpreted commutative function (no non-linear reasoning)")
         return f(x, y)
 
@@ -263,7 +276,19 @@ class ExprMixin:
 
     def compare(self, op, a, b, st, node=None):
         if isinstance(op, (ast.Eq, ast.NotEq)):
-            if a.ty.kind == "Class" and b.ty.kind == "Class":
+            en = None
+            if isinstance(a.py, tuple) and a.py and a.py[0] == "enum_name" and b.ty.kind == "Str":
+                en, other = a.py[1], b
+            elif isinstance(b.py, tuple) and b.py and b.py[0] == "enum_name" and a.ty.kind == "Str":
+                en, other = b.py[1], a
+            lit = None
+            if en is not None:
+                lit = [t for t, c in self.S._lits.items() if c.eq(other.z)]
+            if en is not None and lit:
+                # E.name == "LIT"  <=>  E == <member named LIT>   (enum table re-read from the source, A4)
+                members = self.src.classes[en.ty.name].enum_members
+                e = (en.z == members[lit[0]]) if lit[0] in members else z3.BoolVal(False)
+            elif a.ty.kind == "Class" and b.ty.kind == "Class":
                 e = z3.BoolVal(a.py == b.py)
             else:
                 e = self.val_eq(a, b, node)
@@ -442,6 +467,8 @@ class ExprMixin:
         s.set("timeout", 200)
         for p in st.path:
             s.add(zbool(p))
+        for _, g in self.binders:
+            s.add(zbool(g))
         for a in self.assumptions[-40:]:
             if not z3.is_quantifier(a):
                 s.add(a)
@@ -525,6 +552,8 @@ class ExprMixin:
         if k == "EmptyList":
             return z3.IntVal(0), (lambda i: (_ for _ in ()).throw(Unsupported("element of empty list", node))), None
         if k == "List":
+            if isinstance(v.py, tuple) and v.py and v.py[0] == "mapped":
+                return v.py[1], v.py[2], v.ty.elem
             return self.list_len(v), (lambda i: Val(v.ty.elem, self.list_get(v, i))), v.ty.elem
         if k == "Opt" and v.ty.t.kind == "List":
             self.oblige("safe", "none-iter", z3.Not(self.opt_is_none(v)), st, node)
@@ -606,7 +635,13 @@ class ExprMixin:
                 st.path.pop()
                 arr = z3.If(ii < n, z3.Store(arr, ii, e.z), arr)
             return self.mk_list(lt, n, arr)
-        r = self.fresh_val(lt, "map")
+        if tag == "range":
+            lo, hi = v.py[1], v.py[2]
+            rf = self.uf("range_list", z3.IntSort(), z3.IntSort(), self.S.sort(lt))
+            r = Val(lt, rf(lo, hi))
+        else:
+            r = self.fresh_val(lt, "map")
+        r.py = ("mapped", n, g)
         self.assume(self.list_len(r) == n, st)
         kq = self.qvar()
         self.binders.append((kq, z3.And(kq >= 0, kq < n)))
@@ -615,7 +650,7 @@ class ExprMixin:
             eq = self.list_get(r, kq) == e.z
         finally:
             self.binders.pop()
-        self.assume(z3.ForAll([kq], z3.Implies(z3.And(kq >= 0, kq < n), eq), patterns=[self.list_get(r, kq)]), st)
+        self.assume(_forall_pat([kq], z3.Implies(z3.And(kq >= 0, kq < n), eq), [self.list_get(r, kq)]), st)
         return r
 
     def realize_filter(self, v, st, node=None):
@@ -656,35 +691,60 @@ class ExprMixin:
             r = self.mk_list(lt, cnt, arr)
         else:
             self.trusted.add("filter(pred, L) = order-preserving sub-list of the elements satisfying pred")
-            r = self.fresh_val(lt, "filt")
-            emb = z3.Function("emb!%d" % next(self.counter), *([b.sort() for b, _ in self.binders] + [z3.IntSort(), z3.IntSort()]))
-            inv = z3.Function("inv!%d" % next(self.counter), *([b.sort() for b, _ in self.binders] + [z3.IntSort(), z3.IntSort()]))
-            bvs = [b for b, _ in self.binders]
-            m = self.list_len(r)
-            self.assume(z3.And(m >= 0, m <= n), st)
-            j = self.qvar("j")
-            j2 = self.qvar("j")
-            i = self.qvar("i")
-            self.binders.append((j, z3.And(j >= 0, j < m)))
-            self.spec += 1       # safety of the predicate is checked below, for every index of the source list
+            from .calls import abstract_over
+            depth = getattr(self, "_sum_depth", 0)
+            kc = z3.Int("k!filtcanon%d" % depth)
+            self._sum_depth = depth + 1
+            self.binders.append((kc, z3.And(kc >= 0, kc < n)))
+            self.spec += 1
             try:
-                x = Val(lt.elem, self.list_get(src, emb(*bvs, j)))
-                p = pred(x)
+                pc = zbool(pred(Val(lt.elem, self.list_get(src, kc))))
             finally:
                 self.spec -= 1
                 self.binders.pop()
-            self.assume(z3.ForAll([j], z3.Implies(z3.And(j >= 0, j < m), z3.And(
-                emb(*bvs, j) >= 0, emb(*bvs, j) < n, self.list_get(r, j) == self.list_get(src, emb(*bvs, j)), p)),
-                patterns=[self.list_get(r, j)]), st)
-            self.assume(z3.ForAll([j, j2], z3.Implies(z3.And(j >= 0, j < j2, j2 < m), emb(*bvs, j) < emb(*bvs, j2))), st)
-            self.binders.append((i, z3.And(i >= 0, i < n)))
-            try:
-                pi = pred(Val(lt.elem, self.list_get(src, i)))
-            finally:
-                self.binders.pop()
-            self.assume(z3.ForAll([i], z3.Implies(z3.And(i >= 0, i < n, pi), z3.And(
-                inv(*bvs, i) >= 0, inv(*bvs, i) < m, emb(*bvs, inv(*bvs, i)) == i)),
-                patterns=[self.list_get(src, i)]), st)
+                self._sum_depth = depth
+            template, targs = abstract_over(pc, kc)
+            bvs = [b for b, _ in self.binders]
+            if template is None:
+                targs = list(bvs)
+                key = ("opaque-filter", pc.get_id())
+            else:
+                key = ("filter", template, tuple(str(x.sort()) for x in targs), str(src.z.sort()))
+            fargs = [src.z] + list(targs)
+            if key not in self.sum_cache:
+                idn = len(self.sum_cache)
+                sorts = [x.sort() for x in fargs]
+                self.sum_cache[key] = (z3.Function("filt!%d" % idn, *(sorts + [self.S.sort(lt)])),
+                                       z3.Function("emb!%d" % idn, *(sorts + [z3.IntSort(), z3.IntSort()])),
+                                       z3.Function("inv!%d" % idn, *(sorts + [z3.IntSort(), z3.IntSort()])))
+            ff, emb, inv = self.sum_cache[key]
+            r = Val(lt, ff(*fargs))
+            site = (key, tuple(x.get_id() for x in fargs))
+            if site not in self.sum_sites and not self.dry:
+                self.sum_sites.add(site)
+                m = self.list_len(r)
+                j, j2, i = self.qvar("j"), self.qvar("j"), self.qvar("i")
+                pj = z3.substitute(pc, (kc, emb(*fargs, j)))
+                pi_ = z3.substitute(pc, (kc, i))
+                facts = [
+                    z3.And(m >= 0, m <= n),
+                    _forall_pat([j], z3.Implies(z3.And(j >= 0, j < m), z3.And(
+                        emb(*fargs, j) >= 0, emb(*fargs, j) < n, self.list_get(r, j) == self.list_get(src, emb(*fargs, j)), pj)), [self.list_get(r, j)]),
+                    z3.ForAll([j, j2], z3.Implies(z3.And(j >= 0, j < j2, j2 < m), emb(*fargs, j) < emb(*fargs, j2))),
+                    _forall_pat([i], z3.Implies(z3.And(i >= 0, i < n, pi_), z3.And(
+                        inv(*fargs, i) >= 0, inv(*fargs, i) < m, emb(*fargs, inv(*fargs, i)) == i)), [self.list_get(src, i)]),
+                ]
+                fact = z3.And(*facts)
+                if bvs:
+                    fact = z3.ForAll(bvs, z3.Implies(z3.And(*[zbool(g) for _, g in self.binders]), fact))
+                self.assumptions.append(fact)
+            # safety of the predicate on every element of the source list
+            if not self.spec and not self.dry:
+                self.binders.append((kc, z3.And(kc >= 0, kc < n)))
+                try:
+                    pred(Val(lt.elem, self.list_get(src, kc)))
+                finally:
+                    self.binders.pop()
         if tag == "genif" and not (isinstance(elt, ast.Name) and isinstance(target, ast.Name) and elt.id == target.id):
             return self.realize(Val(T_ITER, None, py=("gen", elt, target, r, env, cls)), st, node)
         return r
